@@ -33,8 +33,13 @@ FRIENDS = {
 # R-C13-1
 # ---------------------------------------------------------------------------------------------
 class UnitOracle(Oracle):
-    def __init__(self, seg: int, a_none: bool, b_none: bool, lab: int):
-        self.seg, self.a_none, self.b_none, self.lab = seg, a_none, b_none, lab
+    """one case: order of the two segments, kind of each label (N = None, E = empty string, S = non-empty), order of two non-empty labels"""
+
+    def __init__(self, seg: int, ka: str, kb: str, lab: int):
+        self.seg, self.ka, self.kb, self.lab = seg, ka, kb, lab
+
+    def _kind(self, s: Sym) -> str:
+        return self.ka if s.name.startswith("A.") else self.kb
 
     def cmp_sym(self, a: Sym, b: Sym) -> int:
         if a.domain != b.domain:
@@ -43,40 +48,52 @@ class UnitOracle(Oracle):
         if a.domain == "seg":
             return sign * self.seg
         if a.domain == "str":
+            ka, kb = self._kind(a), self._kind(b)
+            if ka == "E" or kb == "E":
+                return 0 if ka == kb else (-1 if ka == "E" else 1)      # "" is the least string
             return sign * self.lab
         raise Undecided(f"{a} ? {b}")
 
     def is_none(self, v):
         if isinstance(v, Sym) and v.domain == "str":
-            return self.a_none if v.name.startswith("A.") else self.b_none
+            return self._kind(v) == "N"
         return False
 
     def is_empty(self, v):
-        return None
+        return self._kind(v) == "E"
 
 
 def unit_cases():
     for seg in (-1, 0, 1):
-        yield (seg, True, True, 0)
-        yield (seg, True, False, 0)
-        yield (seg, False, True, 0)
-        for lab in (-1, 0, 1):
-            yield (seg, False, False, lab)
+        for ka in "NES":
+            for kb in "NES":
+                if ka == "S" and kb == "S":
+                    for lab in (-1, 0, 1):
+                        yield (seg, ka, kb, lab)
+                else:
+                    yield (seg, ka, kb, 0)
 
 
-def spec_lt(seg, a_none, b_none, lab) -> bool:
+def _lab_cmp(ka, kb, lab) -> int:
+    """documented label order: unlabelled first, then ordinary string order ("" before any other label)"""
+    rank = {"N": 0, "E": 1, "S": 2}
+    if ka != kb:
+        return -1 if rank[ka] < rank[kb] else 1
+    return lab if ka == "S" else 0
+
+
+def spec_lt(seg, ka, kb, lab) -> bool:
     """documented order: segment first, then label, unlabelled first"""
     if seg != 0:
         return seg < 0
-    if a_none or b_none:
-        return a_none and not b_none
-    return lab < 0
+    return _lab_cmp(ka, kb, lab) < 0
 
 
 def case_name(c) -> str:
-    seg, an, bn, lab = c
+    seg, ka, kb, lab = c
     s = {-1: "seg<", 0: "seg=", 1: "seg>"}[seg]
-    l = "None/None" if an and bn else "None/str" if an else "str/None" if bn else {-1: "lab<", 0: "lab=", 1: "lab>"}[lab]
+    nm = {"N": "None", "E": "''", "S": "str"}
+    l = f"{nm[ka]}/{nm[kb]}" + ({-1: "(lab<)", 0: "(lab=)", 1: "(lab>)"}[lab] if ka == kb == "S" else "")
     return f"{s},{l}"
 
 
@@ -139,9 +156,9 @@ def rule_unit_order(ctx: Ctx):
                   construct=f"case {case_name(c)}", key=f"case {case_name(c)}")
     # order axioms read off the table (mirror case = swap operands)
     for c, got in table.items():
-        seg, an, bn, lab = c
-        mirror = (-seg, bn, an, -lab)
-        equal = seg == 0 and ((an and bn) or (not an and not bn and lab == 0))
+        seg, ka, kb, lab = c
+        mirror = (-seg, kb, ka, -lab)
+        equal = seg == 0 and _lab_cmp(ka, kb, lab) == 0
         if equal:
             ctx.check(not got, "R-C13-1", f, None, f"irreflexive on equal units ({case_name(c)}): u < u must be False "
                       "(SortedSet bisects with <; a reflexive order breaks lookup and removal)",
@@ -694,7 +711,7 @@ def rule_accessors(ctx: Ctx):
 
 def run(ctx: Ctx):
     ctx.clauses += [
-        "R-C13-1 Unit.__lt__ evaluated abstractly on all 18 outcomes of its comparisons: equals the documented lexicographic order, irreflexive, asymmetric, total; dataclass eq over the same fields",
+        "R-C13-1 Unit.__lt__ evaluated abstractly on all 33 outcomes of its comparisons (3 segment orders x label kinds None / empty / non-empty and label orders): equals the documented lexicographic order, irreflexive, asymmetric, total; dataclass eq over the same fields",
         "R-C13-2 only class Continuum (plus 4 named friend sites with a reason each) writes _annotations/_categories/bounds",
         "R-C13-3 add(): zero-duration guard dominates every write; on every normal exit unit inserted under its annotator, label registered, bounds widened; sets created only when absent; remove() only removes",
         "R-C13-4 copy() carries every field __init__ sets; copy_flush() every field not derived from the units",
